@@ -148,7 +148,7 @@ func Generate(profile string, seed uint64, tier string) (*Scenario, error) {
 			case x < 0.42:
 				sc.Ops = append(sc.Ops, Op{K: "restart"})
 			case x < 0.47:
-				sc.Ops = append(sc.Ops, Op{K: "foreignBackup"})
+				sc.Ops = append(sc.Ops, Op{K: "foreignBackup", N: g.Intn(2)})
 			case x < 0.62:
 				// dataset management between backup runs: what a backup run sees first may be a dataset
 				// record, a deleted-datasets set or a namespace mapping, not an entity
@@ -188,7 +188,7 @@ func Generate(profile string, seed uint64, tier string) (*Scenario, error) {
 		}
 		sc.Ops = append(sc.Ops, Op{K: "backup"}, Op{K: "restoreCheck"})
 		if g.P(0.3) {
-			sc.Ops = append(sc.Ops, Op{K: "foreignBackup"}, Op{K: "restoreCheck"})
+			sc.Ops = append(sc.Ops, Op{K: "foreignBackup", N: g.Intn(2)}, Op{K: "restoreCheck"})
 		}
 		if g.P(0.3) {
 			// the location is taken over by another store while this hub keeps running (or restarts)
